@@ -28,7 +28,7 @@ CASES = {"quick": 3000, "thorough": 150000}
 RULE = ("(a) generated grammars (30% with user classes) x 4 derived inputs, (b) generated packages/classes models with "
         "upward references; per model 3 generated (selector, should_follow, order) queries from the root and from up to 3 "
         "inner objects, get_parent_of_type for every (object, class) pair. non-trivial: containment depth >=3 and a "
-        "should_follow predicate that prunes a subtree, or a reference to an ancestor; distinct by canonical JSON")
+        "should_follow predicate that prunes a subtree, or a reference to an ancestor; also: user classes whose instances are falsy (__len__ == 0 / __bool__ False); distinct by canonical JSON")
 ASSUMPTIONS = [
     "sibling order between different attributes is not asserted (only exactly-once and ancestor/descendant order)",
     "should_follow is consulted for contained objects, not for the start object of the search",
